@@ -878,6 +878,12 @@ func descendingFills(info *types.Info, e *engines, clause *ast.CaseClause) (loop
 		}
 		// stores into an indexed collection
 		benv := &eng.AffEnv{Info: info, Vars: map[types.Object]eng.Aff{}, Sym: env.Sym}
+		benv.Val = func(x ast.Expr) (eng.Aff, bool) {
+			if c, ok := x.(*ast.CallExpr); ok && isBuiltinCall(info, c, "len") && len(c.Args) == 1 {
+				return lenOf(c.Args[0])
+			}
+			return eng.Aff{}, false
+		}
 		if cl.Var != nil {
 			benv.Vars[cl.Var] = cl.Val
 		}
@@ -954,8 +960,8 @@ func c01Calls(p *core.Program, r *core.Report, e *engines) {
 							n++
 						}
 					}
-					// the fast call: a call of a type-asserted function value
-					if _, ok := eng.Unparen(c.Fun).(*ast.TypeAssertExpr); ok {
+					// the fast call: a call of a type-asserted function value (possibly named first)
+					if _, ok := e.vm.Defs.Resolve(c.Fun).(*ast.TypeAssertExpr); ok {
 						n++
 					}
 				}
